@@ -214,6 +214,43 @@ func (s *session) execFS(op string, a []string) string {
 			return "err:trunc"
 		}
 		return "ok"
+	case "cutout":
+		// cutout d file off len: the file loses len bytes at off (a missing block: everything behind it moves up)
+		p := filepath.Join(s.dir(a[0]), a[1])
+		off, _ := strconv.Atoi(a[2])
+		n, _ := strconv.Atoi(a[3])
+		b, err := os.ReadFile(p)
+		if err != nil {
+			return "err:open"
+		}
+		if off+n > len(b) {
+			return "err:range"
+		}
+		b = append(b[:off:off], b[off+n:]...)
+		if err := os.WriteFile(p, b, 0o644); err != nil {
+			return "err:write"
+		}
+		return "ok"
+	case "swapblk":
+		// swapblk d file off1 off2 len: two non-overlapping byte ranges of equal length change places
+		p := filepath.Join(s.dir(a[0]), a[1])
+		o1, _ := strconv.Atoi(a[2])
+		o2, _ := strconv.Atoi(a[3])
+		n, _ := strconv.Atoi(a[4])
+		b, err := os.ReadFile(p)
+		if err != nil {
+			return "err:open"
+		}
+		if o1+n > o2 || o2+n > len(b) {
+			return "err:range"
+		}
+		tmp := append([]byte(nil), b[o1:o1+n]...)
+		copy(b[o1:o1+n], b[o2:o2+n])
+		copy(b[o2:o2+n], tmp)
+		if err := os.WriteFile(p, b, 0o644); err != nil {
+			return "err:write"
+		}
+		return "ok"
 	case "rmfile":
 		if err := os.Remove(filepath.Join(s.dir(a[0]), a[1])); err != nil {
 			return "err:remove"
